@@ -143,11 +143,10 @@ def run(ctx, report: Report) -> None:
         {'same_text': consts['CSS_IN_RANGE'] == consts['CSS_OUT_OF_RANGE']},
         ':in-range and :out-of-range must be the same selector compiled with FLG_IN_RANGE / FLG_OUT_OF_RANGE respectively')
     # link / any-link
-    _, pc = src.func('css_parser.CSSParser.parse_pseudo_class')
-    same = any(isinstance(n, ast.If) and isinstance(n.test, ast.Compare) and set(inv.folder.try_ev(
-        'css_parser', n.test.comparators[0], default=()) or ()) == {':link', ':any-link'} for n in ast.walk(pc)
-        if isinstance(n, ast.If) and isinstance(n.test, ast.Compare) and isinstance(n.test.ops[0], ast.In))
-    law('link-equals-any-link', same, {}, ':link and :any-link are no longer handled by one branch / one definition')
+    from .sem import pseudo_table
+    ptab = pseudo_table(ctx)
+    same = ':link' in ptab and ':any-link' in ptab and ptab[':link'] == ptab[':any-link'] and bool(ptab[':link']['consts'])
+    law('link-equals-any-link', same, {}, ':link and :any-link no longer have the same effect on the selector (one definition)')
     # :checked is the first alternative of :default; flagged constants keep the special alternative last
     d_alts = split_top(consts['CSS_DEFAULT'])
     law('checked-implies-default', d_alts[0] == ':checked' and flags.get('CSS_DEFAULT', 0) & F['FLG_DEFAULT'],
